@@ -891,6 +891,8 @@ class Normaliser:
     def _inline_stmt(self, st, fn, rel, mod, cls, stack, depth, caller_names):
         call = None
         kind = None
+        if isinstance(st, ast.For):
+            return self._inline_generator_loop(st, fn, rel, mod, cls, stack, depth, caller_names)
         if isinstance(st, (ast.Assign, ast.AnnAssign, ast.AugAssign)) and isinstance(st.value, ast.Call):
             call, kind = st.value, 'assign'
         elif isinstance(st, ast.Return) and isinstance(st.value, ast.Call):
@@ -939,7 +941,88 @@ class Normaliser:
         holder = ast.Module(body=body, type_ignores=[])
         _Sub(mapping, rename).visit(holder)
         body = holder.body
+        return self._finish_inline(st, kind, fn, rel, mod, cls, stack, depth, callee, owner_rel, prelude, body)
 
+    def _inline_generator_loop(self, st: ast.For, fn, rel, mod, cls, stack, depth, caller_names):
+        """`for x in self.gen(a): BODY` with a new generator helper: the helper's body with every
+        `yield e` replaced by `x = e; BODY`.  Only when BODY has no break/continue of its own loop, the
+        helper has no `return`, and every yield is a statement."""
+        if st.orelse or not isinstance(st.iter, ast.Call):
+            return None
+        r = self._resolve(st.iter, fn, rel, mod, cls)
+        if r is None:
+            return None
+        callee, recv, owner_rel, nested = r
+        if callee.name in stack or not self._acceptable_generator(callee):
+            return None
+
+        def own_jumps(stmts) -> bool:
+            for x in stmts:
+                if isinstance(x, (ast.Break, ast.Continue)):
+                    return True
+                if isinstance(x, (ast.For, ast.While, ast.FunctionDef, ast.AsyncFunctionDef, ast.ClassDef)):
+                    if isinstance(x, (ast.For, ast.While)) and own_jumps(x.orelse):
+                        return True
+                    continue
+                for f_ in ('body', 'orelse', 'finalbody'):
+                    if own_jumps(getattr(x, f_, []) or []):
+                        return True
+                for h in getattr(x, 'handlers', []) or []:
+                    if own_jumps(h.body):
+                        return True
+            return False
+        if own_jumps(st.body):
+            return None
+        b = self._bind(st.iter, callee, recv, caller_names | _assigned_names(st))
+        if b is None:
+            return None
+        prelude, mapping, rename = b
+        body = clone(self._body(callee))
+        holder = ast.Module(body=body, type_ignores=[])
+        _Sub(mapping, rename).visit(holder)
+
+        def repl(stmts: list[ast.stmt]) -> list[ast.stmt]:
+            out: list[ast.stmt] = []
+            for x in stmts:
+                if isinstance(x, ast.Expr) and isinstance(x.value, ast.Yield):
+                    val = x.value.value if x.value.value is not None else ast.Constant(value=None)
+                    out.append(ast.copy_location(ast.Assign(targets=[clone(st.target)], value=val), x))
+                    out.extend(clone(st.body))
+                    continue
+                for f_ in ('body', 'orelse', 'finalbody'):
+                    if isinstance(getattr(x, f_, None), list) and not isinstance(x, (ast.FunctionDef, ast.ClassDef)):
+                        setattr(x, f_, repl(getattr(x, f_)))
+                for h in getattr(x, 'handlers', []) or []:
+                    h.body = repl(h.body)
+                out.append(x)
+            return out
+        new_body = prelude + repl(holder.body)
+        self.inlined.append(f'{owner_rel}::{callee.name} -> {fn.name}')
+        for x in new_body:
+            ast.fix_missing_locations(x) if hasattr(x, 'lineno') else ast.copy_location(x, st)
+        return [ast.copy_location(x, st) if not hasattr(x, 'lineno') else x for x in new_body]
+
+    def _acceptable_generator(self, callee: ast.FunctionDef) -> bool:
+        a = callee.args
+        if a.vararg or a.posonlyargs or a.kwarg:
+            return False
+        for d in callee.decorator_list:
+            if not (isinstance(d, ast.Name) and d.id in ('staticmethod', 'classmethod')):
+                return False
+        if _stmt_count(callee) > MAX_STMTS:
+            return False
+        yields = 0
+        for n in ast.walk(callee):
+            if isinstance(n, (ast.YieldFrom, ast.Await, ast.Global, ast.Nonlocal, ast.Return, ast.Lambda)):
+                return False
+            if isinstance(n, (ast.FunctionDef, ast.AsyncFunctionDef)) and n is not callee:
+                return False
+            if isinstance(n, ast.Yield):
+                yields += 1
+        stmts = sum(1 for n in ast.walk(callee) if isinstance(n, ast.Expr) and isinstance(n.value, ast.Yield))
+        return yields > 0 and yields == stmts
+
+    def _finish_inline(self, st, kind, fn, rel, mod, cls, stack, depth, callee, owner_rel, prelude, body):
         def sink(value, at):
             if kind == 'assign':
                 s2 = clone(st)
